@@ -126,6 +126,7 @@ func (h *heartbeatManager) checkSessions() {
 			session.Connected = false
 			session.Active = false
 			deadSessions = append(deadSessions, id)
+			session.shutdown()
 			session.mu.Unlock()
 			continue
 		}
@@ -140,13 +141,14 @@ func (h *heartbeatManager) checkSessions() {
 			}
 
 			// Send heartbeat (don't block on lock for too long)
-			if err := session.Stream.Send(heartbeat); err != nil {
+			// Queued for the session's sender: the checker never waits for a replica.
+			// LastActivity is refreshed when the stream has really taken a response.
+			if err := session.send(heartbeat); err != nil {
 				log.Error("Failed to send heartbeat to session %s: %v", id, err)
 				session.Connected = false
 				session.Active = false
 				deadSessions = append(deadSessions, id)
 			} else {
-				session.LastActivity = now
 				log.Debug("Sent heartbeat to session %s", id)
 			}
 		}
@@ -177,14 +179,13 @@ func (h *heartbeatManager) pingSession(sessionID string) bool {
 	session.mu.Lock()
 	defer session.mu.Unlock()
 
-	if err := session.Stream.Send(heartbeat); err != nil {
+	if err := session.send(heartbeat); err != nil {
 		log.Error("Failed to ping session %s: %v", sessionID, err)
 		session.Connected = false
 		session.Active = false
 		return false
 	}
 
-	session.LastActivity = time.Now()
 	return true
 }
 
